@@ -24,7 +24,8 @@ EXPLANATION = (
     'simulation\'s own app signature with the mutation\'s own model name; '
     'R-C15.5 ProjectSignature.get_app_sig resolves a name by exact app id '
     'first and uses the legacy-label alias only as a fallback; '
-    'R-C15.6 BaseEvolutionTask.execute_tasks reaches the loop over its tasks on every normal path (an empty list excepted) and every iteration calls task.execute(); PurgeAppTask.execute runs its SQL under no condition other than evolution_required.')
+    'R-C15.6 BaseEvolutionTask.execute_tasks reaches the loop over its tasks on every normal path (an empty list excepted) and every iteration calls task.execute(); PurgeAppTask.execute runs its SQL under no condition other than evolution_required; '
+    'R-C15.4 also: purging removes the app\'s own, emptied signature entry (guarded by is_empty); R-C15.7 a stored custom many-to-many db_table survives loading (shared with R-C06.10).')
 NOT_DECIDED = (
     'Non-interference with other apps\' tables and rows for every project '
     'layout (prefix table names, shared m2m tables).')
